@@ -369,6 +369,27 @@ def run(prog, rep):
                         % (mm.group(1), tgt, bad[0][1], bad[0][2], bad[0][0]), func=f.id)
         else:
             rep.ok('R16.6', 'To(%s <- %s)' % (tgt, mm.group(1)))
+    # helper closures of the parsers (a lambda that classifies one code unit) are separate function bodies: same rule
+    for f in sorted(prog.funcs.values(), key=lambda g: g.id):
+        if f.body is None or f.relfile != FUND or f.sym.get('kind') != 'lambda' or not f.params:
+            continue
+        pt = [base_type(f.type(p)) for p in f.params if 't' in p]
+        if not any(t in wide for t in pt):
+            continue
+        rep.touch(f)
+        bad = []
+        for n in f.walk():
+            if n.get('ck') == 'IntegralCast' and n.get('c'):
+                src, dst = base_type(f.type(n['c'][0])), base_type(f.type(n))
+                if src in wide and dst in INT_TYPES and INT_TYPES[dst][0] < wide[src] and dst != 'bool':
+                    bad.append((f.loc(n), src, dst))
+        wt = [t for t in pt if t in wide][0]
+        if bad:
+            rep.finding('R16.6', 'closure at line %d|%s narrowed' % (f.raw.get('line', f.body['l']) if hasattr(f, 'raw') else f.body['l'], wt), bad[0][0],
+                        'a closure of a text parser takes a %s code unit and converts it to %s before it is examined (%s) - non-ASCII characters '
+                        'alias ASCII ones (U+0438 is classified like the digit 8)' % (bad[0][1], bad[0][2], bad[0][0]), func=f.id)
+        else:
+            rep.ok('R16.6', 'closure(%s)@%d' % (wt, f.body['l']))
     if n6 < 6:
         raise AnalysisBroken('R16.6: only %d wide-text parsers instantiated' % n6)
 
